@@ -219,7 +219,7 @@ def fn_authboss_Middleware : String := "func(ab *Authboss, redirectToLogin bool,
 def fn_authboss_hasBit : String := "func(reqs, req MWRequirements) bool { return reqs&req == req }"
 def fn_oauth2_OAuth2_Init : String := "func(ab *authboss.Authboss) error { o.Authboss = ab // Do annoying sorting on keys so we can have predictable // route registration (both for consistency inside the router but // also for tests -_-) var keys []string for k := range o.Authboss.Config.Modules.OAuth2Providers { keys = append(keys, k) } sort.Strings(keys) for _, provider := range keys { cfg := o.Authboss.Config.Modules.OAuth2Providers[provider] provider = strings.ToLower(provider) init := fmt.Sprintf(\"/oauth2/%s\", provider) callback := fmt.Sprintf(\"/oauth2/callback/%s\", provider) o.Authboss.Config.Core.Router.Get(init, o.Authboss.Core.ErrorHandler.Wrap(o.Start)) o.Authboss.Config.Core.Router.Get(callback, o.Authboss.Core.ErrorHandler.Wrap(o.End)) if mount := o.Authboss.Config.Paths.Mount; len(mount) > 0 { callback = path.Join(mount, callback) } cfg.OAuth2Config.RedirectURL = o.Authboss.Config.Paths.RootURL + callback } return nil }"
 def fn_oauth2_OAuth2_Start : String := "func(w http.ResponseWriter, r *http.Request) error { provider := strings.ToLower(filepath.Base(r.URL.Path)) cfg, ok := o.Authboss.Config.Modules.OAuth2Providers[provider] if !ok { return errors.Errorf(\"oauth2 provider %q not found\", provider) } nonce := make([]byte, 32) if _, err := io.ReadFull(rand.Reader, nonce); err != nil { return errors.Wrap(err, \"failed to create nonce\") } state := base64.URLEncoding.EncodeToString(nonce) authboss.PutSession(w, authboss.SessionOAuth2State, state) passAlongs := make(map[string]string) for k, vals := range r.URL.Query() { for _, val := range vals { passAlongs[k] = val } } if len(passAlongs) > 0 { byt, err := json.Marshal(passAlongs) if err != nil { return err } authboss.PutSession(w, authboss.SessionOAuth2Params, string(byt)) } else { authboss.DelSession(w, authboss.SessionOAuth2Params) } authCodeUrl := cfg.OAuth2Config.AuthCodeURL(state) extraParams := cfg.AdditionalParams.Encode() if len(extraParams) > 0 { authCodeUrl = fmt.Sprintf(\"%s&%s\", authCodeUrl, extraParams) } ro := authboss.RedirectOptions{ Code: http.StatusTemporaryRedirect, RedirectPath: authCodeUrl, } return o.Authboss.Core.Redirector.Redirect(w, r, ro) }"
-def fn_oauth2_OAuth2_End : String := "func(w http.ResponseWriter, r *http.Request) error { provider := strings.ToLower(filepath.Base(r.URL.Path)) cfg, ok := o.Authboss.Config.Modules.OAuth2Providers[provider] if !ok { return errors.Errorf(\"oauth2 provider %q not found\", provider) } wantState, ok := authboss.GetSession(r, authboss.SessionOAuth2State) if !ok { return errors.New(\"oauth2 endpoint hit without session state\") } state := r.FormValue(FormValueOAuth2State) if state != wantState { return errOAuthStateValidation } rawParams, ok := authboss.GetSession(r, authboss.SessionOAuth2Params) var params map[string]string if ok { if err := json.Unmarshal([]byte(rawParams), &params); err != nil { return errors.Wrap(err, \"failed to decode oauth2 params\") } } authboss.DelSession(w, authboss.SessionOAuth2State) authboss.DelSession(w, authboss.SessionOAuth2Params) hasErr := r.FormValue(\"error\") if len(hasErr) > 0 { reason := r.FormValue(\"error_reason\") handled, err := o.Authboss.Events.FireAfter(authboss.EventOAuth2Fail, w, r) if err != nil { return err } else if handled { return nil } ro := authboss.RedirectOptions{ Code: http.StatusTemporaryRedirect, RedirectPath: o.Authboss.Config.Paths.OAuth2LoginNotOK, Failure: o.Localizef(r.Context(), authboss.TxtOAuth2LoginNotOK, provider), } return o.Authboss.Core.Redirector.Redirect(w, r, ro) } code := r.FormValue(\"code\") token, err := exchanger(cfg.OAuth2Config, r.Context(), code) if err != nil { return errors.Wrap(err, \"could not validate oauth2 code\") } details, err := cfg.FindUserDetails(r.Context(), *cfg.OAuth2Config, token) if err != nil { return err } storer := authboss.EnsureCanOAuth2(o.Authboss.Config.Storage.Server) user, err := storer.NewFromOAuth2(r.Context(), provider, details) if err != nil { return errors.Wrap(err, \"failed to create oauth2 user from values\") } user.PutOAuth2Provider(provider) user.PutOAuth2AccessToken(token.AccessToken) user.PutOAuth2Expiry(token.Expiry) if len(token.RefreshToken) != 0 { user.PutOAuth2RefreshToken(token.RefreshToken) } if err := storer.SaveOAuth2(r.Context(), user); err != nil { return err } r = r.WithContext(context.WithValue(r.Context(), authboss.CTXKeyUser, user)) handled, err := o.Authboss.Events.FireBefore(authboss.EventOAuth2, w, r) if err != nil { return err } else if handled { return nil } authboss.PutSession(w, authboss.SessionKey, authboss.MakeOAuth2PID(provider, user.GetOAuth2UID())) authboss.DelSession(w, authboss.SessionHalfAuthKey) redirect := o.Authboss.Config.Paths.OAuth2LoginOK query := make(url.Values) for k, v := range params { switch k { case authboss.CookieRemember: if v == \"true\" { r = r.WithContext(context.WithValue(r.Context(), authboss.CTXKeyValues, RMTrue{})) } case FormValueOAuth2Redir: redirect = v default: query.Set(k, v) } } handled, err = o.Authboss.Events.FireAfter(authboss.EventOAuth2, w, r) if err != nil { return err } else if handled { return nil } if len(query) > 0 { redirect = fmt.Sprintf(\"%s?%s\", redirect, query.Encode()) } ro := authboss.RedirectOptions{ Code: http.StatusTemporaryRedirect, RedirectPath: redirect, Success: o.Localizef(r.Context(), authboss.TxtOAuth2LoginOK, provider), } return o.Authboss.Config.Core.Redirector.Redirect(w, r, ro) }"
+def fn_oauth2_OAuth2_End : String := "func(w http.ResponseWriter, r *http.Request) error { provider := strings.ToLower(filepath.Base(r.URL.Path)) cfg, ok := o.Authboss.Config.Modules.OAuth2Providers[provider] if !ok { return errors.Errorf(\"oauth2 provider %q not found\", provider) } wantState, ok := authboss.GetSession(r, authboss.SessionOAuth2State) if !ok { return errors.New(\"oauth2 endpoint hit without session state\") } state := r.FormValue(FormValueOAuth2State) if state != wantState { return errOAuthStateValidation } rawParams, ok := authboss.GetSession(r, authboss.SessionOAuth2Params) var params map[string]string if ok { if err := json.Unmarshal([]byte(rawParams), &params); err != nil { return errors.Wrap(err, \"failed to decode oauth2 params\") } } authboss.DelSession(w, authboss.SessionOAuth2State) authboss.DelSession(w, authboss.SessionOAuth2Params) hasErr := r.FormValue(\"error\") if len(hasErr) > 0 { reason := r.FormValue(\"error_reason\") handled, err := o.Authboss.Events.FireAfter(authboss.EventOAuth2Fail, w, r) if err != nil { return err } else if handled { return nil } ro := authboss.RedirectOptions{ Code: http.StatusTemporaryRedirect, RedirectPath: o.Authboss.Config.Paths.OAuth2LoginNotOK, Failure: o.Localizef(r.Context(), authboss.TxtOAuth2LoginNotOK, provider), } return o.Authboss.Core.Redirector.Redirect(w, r, ro) } code := r.FormValue(\"code\") token, err := exchanger(cfg.OAuth2Config, r.Context(), code) if err != nil { return errors.Wrap(err, \"could not validate oauth2 code\") } details, err := cfg.FindUserDetails(r.Context(), *cfg.OAuth2Config, token) if err != nil { return err } storer := authboss.EnsureCanOAuth2(o.Authboss.Config.Storage.Server) user, err := storer.NewFromOAuth2(r.Context(), provider, details) if err != nil { return errors.Wrap(err, \"failed to create oauth2 user from values\") } user.PutOAuth2Provider(provider) user.PutOAuth2AccessToken(token.AccessToken) user.PutOAuth2Expiry(token.Expiry) if len(token.RefreshToken) != 0 { user.PutOAuth2RefreshToken(token.RefreshToken) } if err := storer.SaveOAuth2(r.Context(), user); err != nil { return err } r = r.WithContext(context.WithValue(r.Context(), authboss.CTXKeyUser, user)) handled, err := o.Authboss.Events.FireBefore(authboss.EventOAuth2, w, r) if err != nil { return err } else if handled { return nil } authboss.PutSession(w, authboss.SessionKey, authboss.MakeOAuth2PID(provider, user.GetOAuth2UID())) authboss.DelSession(w, authboss.SessionHalfAuthKey) redirect := o.Authboss.Config.Paths.OAuth2LoginOK query := make(url.Values) for k, v := range params { switch k { case authboss.CookieRemember: if v == \"true\" { r = r.WithContext(context.WithValue(r.Context(), authboss.CTXKeyValues, RMTrue{})) } case FormValueOAuth2Redir: if isSameSiteRedirect(v) { redirect = v } default: query.Set(k, v) } } handled, err = o.Authboss.Events.FireAfter(authboss.EventOAuth2, w, r) if err != nil { return err } else if handled { return nil } if len(query) > 0 { redirect = fmt.Sprintf(\"%s?%s\", redirect, query.Encode()) } ro := authboss.RedirectOptions{ Code: http.StatusTemporaryRedirect, RedirectPath: redirect, Success: o.Localizef(r.Context(), authboss.TxtOAuth2LoginOK, provider), } return o.Authboss.Config.Core.Redirector.Redirect(w, r, ro) }"
 def fn_oauth2_RMTrue_GetShouldRemember : String := "func() bool { return true }"
 def consts_oauth2 : List (String × String) := [
   ("oauth2.FormValueOAuth2State", "\"state\""),
@@ -374,8 +374,8 @@ def logCalls_remember : List (String × String) := [
 ]
 def fn_defaults_Responder_Respond : String := "func(w http.ResponseWriter, req *http.Request, code int, page string, data authboss.HTMLData) error { ctxData := req.Context().Value(authboss.CTXKeyData) if ctxData != nil { if data == nil { data = authboss.HTMLData{} } data.Merge(ctxData.(authboss.HTMLData)) } rendered, mime, err := r.Renderer.Render(req.Context(), page, data) if err != nil { return err } w.Header().Set(\"Content-Type\", mime) w.WriteHeader(code) _, err = w.Write(rendered) return err }"
 def fn_defaults_Redirector_Redirect : String := "func(w http.ResponseWriter, req *http.Request, ro authboss.RedirectOptions) error { var redirectFunction = r.redirectNonAPI if isAPIRequest(req) { redirectFunction = r.redirectAPI } return redirectFunction(w, req, ro) }"
-def fn_defaults_Redirector_redirectAPI : String := "func(w http.ResponseWriter, req *http.Request, ro authboss.RedirectOptions) error { path := ro.RedirectPath redir := req.FormValue(r.FormValueName) if strings.Contains(redir, \"://\") { redir = \"\" } if len(redir) != 0 && ro.FollowRedirParam { path = redir } var status = \"success\" var message string if len(ro.Success) != 0 { message = ro.Success } if len(ro.Failure) != 0 { status = \"failure\" message = ro.Failure } data := authboss.HTMLData{ \"location\": path, } data[\"status\"] = status if len(message) != 0 { data[\"message\"] = message } body, mime, err := r.Renderer.Render(req.Context(), \"redirect\", data) if err != nil { return err } if len(body) != 0 { w.Header().Set(\"Content-Type\", mime) } if ro.Code != 0 { if r.CorceRedirectTo200 && (ro.Code == http.StatusTemporaryRedirect || ro.Code == http.StatusPermanentRedirect) { w.WriteHeader(http.StatusOK) } else { w.WriteHeader(ro.Code) } } _, err = w.Write(body) return err }"
-def fn_defaults_Redirector_redirectNonAPI : String := "func(w http.ResponseWriter, req *http.Request, ro authboss.RedirectOptions) error { path := ro.RedirectPath redir := req.FormValue(r.FormValueName) if strings.Contains(redir, \"://\") { redir = \"\" } if len(redir) != 0 && ro.FollowRedirParam { path = redir } if len(ro.Success) != 0 { authboss.PutSession(w, authboss.FlashSuccessKey, ro.Success) } if len(ro.Failure) != 0 { authboss.PutSession(w, authboss.FlashErrorKey, ro.Failure) } http.Redirect(w, req, path, http.StatusFound) return nil }"
+def fn_defaults_Redirector_redirectAPI : String := "func(w http.ResponseWriter, req *http.Request, ro authboss.RedirectOptions) error { path := ro.RedirectPath redir := req.FormValue(r.FormValueName) if !isSameSiteRedirect(redir) { redir = \"\" } if len(redir) != 0 && ro.FollowRedirParam { path = redir } var status = \"success\" var message string if len(ro.Success) != 0 { message = ro.Success } if len(ro.Failure) != 0 { status = \"failure\" message = ro.Failure } data := authboss.HTMLData{ \"location\": path, } data[\"status\"] = status if len(message) != 0 { data[\"message\"] = message } body, mime, err := r.Renderer.Render(req.Context(), \"redirect\", data) if err != nil { return err } if len(body) != 0 { w.Header().Set(\"Content-Type\", mime) } if ro.Code != 0 { if r.CorceRedirectTo200 && (ro.Code == http.StatusTemporaryRedirect || ro.Code == http.StatusPermanentRedirect) { w.WriteHeader(http.StatusOK) } else { w.WriteHeader(ro.Code) } } _, err = w.Write(body) return err }"
+def fn_defaults_Redirector_redirectNonAPI : String := "func(w http.ResponseWriter, req *http.Request, ro authboss.RedirectOptions) error { path := ro.RedirectPath redir := req.FormValue(r.FormValueName) if !isSameSiteRedirect(redir) { redir = \"\" } if len(redir) != 0 && ro.FollowRedirParam { path = redir } if len(ro.Success) != 0 { authboss.PutSession(w, authboss.FlashSuccessKey, ro.Success) } if len(ro.Failure) != 0 { authboss.PutSession(w, authboss.FlashErrorKey, ro.Failure) } http.Redirect(w, req, path, http.StatusFound) return nil }"
 def fn_defaults_isAPIRequest : String := "func(r *http.Request) bool { return strings.HasPrefix(r.Header.Get(\"Content-Type\"), \"application/json\") }"
 def fn_defaults_errorHandler_ServeHTTP : String := "func(w http.ResponseWriter, r *http.Request) { err := e.Handler(w, r) if err == nil { return } }"
 def fn_defaults_ErrorHandler_Wrap : String := "func(handler func(w http.ResponseWriter, r *http.Request) error) http.Handler { return errorHandler{ Handler: handler, LogWriter: e.LogWriter, } }"
